@@ -31,7 +31,7 @@ ASSUMPTIONS = ["the global draw is what the same sampler yields with world_size=
                "draws satisfy the contract of the torch call that produced them"]
 OUTSIDE = ["torch's own DistributedSampler.__iter__ for num_repeats == 1", "dataset sizes above the bound", "statistical properties of the real PRNGs"]
 BOUNDS = {"quick": "DistributedSampler: n<=5 and W<=4 enumerated (incl. n<W), all ranks, num_repeats in 2..3, drop_last, seed, epoch symbolic (seed/epoch unbounded), permutation symbolic; class-balanced: layouts up to 4 samples / 2 classes, samples_per_class<=2, W<=3; weighted: n<=4, size<=n, W<=3",
-          "thorough": "n<=6, W<=6; class-balanced layouts up to 5 samples, samples_per_class<=3"}
+          "thorough": "n<=6, W<=6; class-balanced layouts up to 5 samples, samples_per_class<=3 (final shuffles of 6 entries only for world size 2)"}
 
 
 class LenDS:
@@ -271,7 +271,7 @@ def conditions(tier, rng):
             sizes = cb_draw_sizes(layout, spc)
             if sizes[-1] > (4 if q else 6):
                 continue
-            for W in ((1, 2, 3) if q else (1, 2, 3, 4)):
+            for W in ((1, 2, 3) if q else ((1, 2, 3, 4) if sizes[-1] <= 4 else (2,))):
                 flat = []
                 pre = ["0 <= epoch"]
                 for di, s in enumerate(sizes):
